@@ -316,16 +316,16 @@ func genOps(t *rapid.T) []Op {
 // hostileChunks are raw byte strings inserted between elements.
 var hostileChunks = [][]byte{
 	{0x80, 0x00},
-	{0x07, 0xff, 0xff, 0xff, 0xff, 0xff, 0xff, 0xff, 0xff, 0xf0},                         // Name, length 2^64-16
-	{0x07, 0xff, 0x7f, 0xff, 0xff, 0xff, 0xff, 0xff, 0xff, 0xf0},                         // Name, length 2^63-16
-	{0x08, 0xff, 0xff, 0xff, 0xff, 0xff, 0xff, 0xff, 0xff, 0xff},                         // component, length 2^64-1
-	{0x07, 0x0b, 0x08, 0xff, 0xff, 0xff, 0xff, 0xff, 0xff, 0xff, 0xff, 0xff, 0x41},       // Name with a component of length 2^64-1
-	{0x15, 0xfe, 0x80, 0x00, 0x00, 0x00},                                                 // Content, length 2^31
-	{0x1a, 0xfe, 0x7f, 0xff, 0xff, 0xff},                                                 // binary, length 2^31-1
-	{0xfd}, {0xfe, 0x00}, {0xff, 0x00, 0x00, 0x00},                                       // truncated var-numbers
-	{0x21, 0x7f}, {0x22, 0x00}, {0x0a, 0x09, 1, 2, 3, 4, 5, 6, 7, 8, 9},                  // bool with a length, empty HopLimit, 9-byte nonce
+	{0x07, 0xff, 0xff, 0xff, 0xff, 0xff, 0xff, 0xff, 0xff, 0xf0},                   // Name, length 2^64-16
+	{0x07, 0xff, 0x7f, 0xff, 0xff, 0xff, 0xff, 0xff, 0xff, 0xf0},                   // Name, length 2^63-16
+	{0x08, 0xff, 0xff, 0xff, 0xff, 0xff, 0xff, 0xff, 0xff, 0xff},                   // component, length 2^64-1
+	{0x07, 0x0b, 0x08, 0xff, 0xff, 0xff, 0xff, 0xff, 0xff, 0xff, 0xff, 0xff, 0x41}, // Name with a component of length 2^64-1
+	{0x15, 0xfe, 0x80, 0x00, 0x00, 0x00},                                           // Content, length 2^31
+	{0x1a, 0xfe, 0x7f, 0xff, 0xff, 0xff},                                           // binary, length 2^31-1
+	{0xfd}, {0xfe, 0x00}, {0xff, 0x00, 0x00, 0x00},                                 // truncated var-numbers
+	{0x21, 0x7f}, {0x22, 0x00}, {0x0a, 0x09, 1, 2, 3, 4, 5, 6, 7, 8, 9}, // bool with a length, empty HopLimit, 9-byte nonce
 	{0x50, 0xfd, 0xff, 0xff}, {0x64, 0xff, 0x7f, 0xff, 0xff, 0xff, 0xff, 0xff, 0xff, 0xff}, // fragment / LpPacket with huge lengths
-	{0x00, 0x00}, {0x1f, 0x01, 0x00}, {0xfd, 0x00, 0x07, 0x00},                           // type 0, unknown critical, non-shortest type
+	{0x00, 0x00}, {0x1f, 0x01, 0x00}, {0xfd, 0x00, 0x07, 0x00}, // type 0, unknown critical, non-shortest type
 }
 
 func describe(ops []Op) string {
